@@ -24,6 +24,23 @@ CLAIMS = {
   text="Deductive proof over the real rotation.decideWhatToMake (full decision table over the four stored instants relative to the clock reading, both directions) and rotation.RotateRootCertificates (labels, durability: storage holds the same two roots that are returned; current valid at the call instant; next begins no later than current ends; from empty storage next begins and ends later and overlaps; keep / promote / re-mint-next / reinitialize regions with the exact shifted windows), for every option list with positive lifetime, non-positive not-before skew and non-negative not-after skew, every stored state satisfying the invariant that the function itself re-establishes, and every storage failure.",
   note="Trusted: engine, go/ssa, solvers; integers mathematical; the clock is instantaneous within one call (all readings of one call are equal) - the clock-window assumption of DESIGN.md section 4 with delta = 0; x509.CreateCertificate / ed25519 specs; ghost storage contract. Instants exactly equal to now in the second root's comparisons are left open, as the property statement does. Strict 'next begins before current ends' is proved for freshly minted pairs, the weak inequality in general (boundary instant). The from-empty clause needs lifetime + not-after skew >= 2ns (a 1ns window has no half to shift by).",
   design="5 C08", technique="contracts, WP over go/ssa, SMT linear integer arithmetic (z3, cvc5)"),
+
+ "C16": dict(
+  text="Deductive proof over the real getTlsConfigForClient closure, Accept, NewConn, (*Conn).ClientNextProtos / ClientState and GenerateServerCertificates: the protocol list recorded for a connection is the offered ALPN list minus exactly the certificate-preference entries, in order (loop invariant with a counting spec function, any list); Accept hands NewConn exactly the recorded list and state of the ClientInfo allocated for that connection; NewConn and ClientNextProtos copy (fresh backing array, equal contents, nil preserved); client state in a certificate response exists only when the request's client state verified under the stored record's key (C05 clauses).",
+  note="Trusted: engine, go/ssa, solvers; the TLS handshake is opaque (crypto/tls runs the GetConfigForClient callback built for this connection and nothing else writes its ClientInfo); tls.ServerConfig and registration.FetchNodeCredentials have trusted (thin) contracts here; types.LoadNodeInformationSetByNodeId trusted (see C05); option closures summarised from options.go each run. That the recorded state equals what the node supplied end-to-end additionally relies on protobuf decode of the ALPN-carried request (modelled) and on the client side (tls.ClientConfigs, not under contract yet).",
+  design="5 C16", technique="contracts + loop invariants + call-site assertions, WP over go/ssa, SMT (z3, cvc5 strings)"),
+ "C14": dict(
+  text="Deductive no-panic proof (every index, slice, nil dereference, type assertion, division and concrete dependency precondition is an obligation) for the code a remote peer can reach through the intercepting listener: the GetConfigForClient closure, Accept, CombineFromNextProtos, ContainsKnownAlpnProto, GenerateServerCertificates and its loaders, validateFetchRequestCommon, decryptWithKey / DecryptMessage, with every request-derived value arbitrary; plus the error classification of Accept: a non-nil error is temporary unless the base listener's Accept failed (or the listener's own option list is invalid).",
+  note="Trusted: engine, go/ssa, solvers; library functions are total except where a concrete precondition is specified (aead Decrypt needs 12 ciphertext bytes, ed25519.Verify a 32-byte key); application-supplied storage / wrappers / logger do not panic; registration.FetchNodeCredentials and tls.ServerConfig are called through trusted contracts here (their bodies are not yet in the no-panic sweep); the liveness half (a subsequent honest node still connects) is not covered.",
+  design="5 C14", technique="contracts (nopanic sweep) over go/ssa, SMT (z3, cvc5)"),
+ "C15": dict(
+  text="Deductive proof of the frame condition that isolation between handshakes rests on: NewInterceptingListener establishes cap(options) == len(options); under that invariant every append to an option list performed by the handshake closure writes only into arrays allocated by that handshake (obligation at each append), the closure writes only the ClientInfo of its own connection and ghost storage (frame check), and Accept allocates a fresh ClientInfo per connection.",
+  note="Sequential core only: goroutine interleavings on storage and data-race freedom are not covered (DESIGN.md section 6). FetchNodeCredentials (and the appends inside validateServerLedActivationToken) are behind a trusted contract here. Trusted: engine, go/ssa, solvers; append semantics (in place iff len < cap).",
+  design="5 C15", technique="contracts + frame obligations over go/ssa, SMT"),
+ "C02": dict(
+  text="Deductive proof of the listener-side gating: (1) the request handed to certificate generation on the authenticate branch never has skip-verification set, whatever bytes the peer sent (call-site assertion), (2) certificate generation succeeds only against a stored record whose key signed the nonce (C05 clauses, by key id or node id), (3) the TLS configuration is built with the expected public key equal to the verified request's certificate key, and the fetch waiver option is added on the fetch branch only, (4) Accept never returns a connection whose negotiated protocol has the fetch prefix.",
+  note="Trusted: crypto/tls semantics (a completed server handshake used the returned config, ran VerifyConnection and negotiated a protocol from NextProtos), tls.ServerConfig / standardTlsConfig's VerifyConnection closure behind a trusted contract (not yet verified: leaf.Verify against the valid roots and SubjectKeyId == expected key), idealised crypto, ghost storage. The fall-through to the base TLS configuration is not covered.",
+  design="5 C02", technique="contracts + call-site assertions over go/ssa, SMT"),
 }
 
 NA = {
